@@ -65,13 +65,15 @@ class C13(HistoryProp):
             'queries from outside and the database read back; asserta/assertz, directly or through a variable-held goal; '
             '(b) API level: unify generators opened and kept open, YP.assert_fact of a term over the shared variables '
             'under that stack, generators closed in generated (also non-LIFO) order, then queries. Observations compared '
-            'with the reference model. Non-trivial = the asserted term has a variable that is bound through another '
+            'with the reference model; additionally every unbound Variable OBJECT that appears in an answer must be new '
+            '(fresh at every use: an object seen in an earlier use never comes back). Non-trivial = the asserted term has a variable that is bound through another '
             'variable or inside a structure at assert time, or the stored fact is non-ground and used >= 2 times; '
             'distinct = SHA-1 of the operation list.')
     assumptions = ['CPython 3.12 of /venv', 'reference R: assert stores a resolved copy with fresh variables, every use renames',
                    'unifications needing a cyclic term are discarded (unspecified)']
     cases = {'quick': 3000, 'thorough': 50000}
     genome = {'quick': 200, 'thorough': 300}
+    track_fresh = True
 
     def decode(self, src):
         ops = [['engine', E]]
